@@ -436,7 +436,10 @@ again:
 	C = use_timeo ? network_connect_timeo(sas, &tv, cb_conn, NULL) : network_connect(sas, cb_conn, NULL);
 	fk_log("start=%s", C ? "ok" : "null");
 	fk_ctx = -1;
-	if (hit(0) && C == NULL && af_single && tries++ == 0) goto again;
+	/* the timeout belongs to the caller again once the call has returned (network.h: the value is
+	 * an argument, not an object the library may keep looking at): the caller re-uses it */
+	tv.tv_sec = 86400 * 365; tv.tv_usec = 999999;
+	if (hit(0) && C == NULL && af_single && tries++ == 0) { tv.tv_sec = 10; tv.tv_usec = 0; goto again; }
 	if (C == NULL) conn_done = 1;
 	for (i = 0; strcmp(cops, "-") != 0 && cops[i] && !conn_done; i++) {
 		if (cops[i] == 'x') { network_connect_cancel(C); conn_done = 1; break; }
@@ -510,6 +513,7 @@ int main(void)
 		if (pid == 0) {
 			size_t k;
 			atexit(abandon_report);
+			drv_case_limits();
 			run_case(lines[i]);
 			if (__lsan_do_recoverable_leak_check()) fputs(" !LEAK", stdout);
 			(void)k;
